@@ -70,7 +70,7 @@ def run_case(case):
                                      DelayVolumeSSASimulator, ArrayDelayQueue, py_simulate_model)
     import bioscrape.random as brandom
     C = Counter()
-    viol = []
+    viol = util.ViolList()
     sp = case["spec"]
     M = specmod.build_model(sp, "ctor")
     species = M.get_species_list()
